@@ -18,7 +18,7 @@ pub const FLOORS: &[&str] = &[
     "inspect", "addr:0", "addr:orig-1", "addr:orig", "addr:x7FFF", "addr:x8000", "addr:xFDFF",
     "addr:xFE00", "addr:xFFFF", "origin_high", "origin_low", "predefined_breakpoint_outside_user_space",
     "origin_zero", "origin_above_user_space", "wrong_case_label_rejected", "integer_beyond_32_bits_rejected",
-    "bare_number_like_label_is_a_number", "pc_outside_user_space", "integer_of_17_bits_rejected", "label_far_into_a_big_program", "eval_line_with_a_label_in_front_refused",
+    "bare_number_like_label_is_a_number", "pc_outside_user_space", "integer_of_17_bits_rejected", "label_far_into_a_big_program", "eval_line_with_a_label_in_front_refused", "addr:device_register_of_other_machines", "condition_codes_set_before_the_commands",
 ];
 
 const CMDS_PER_SESSION: u64 = 120;
@@ -79,7 +79,9 @@ fn program(rng: &mut Rng, orig: u16, jump_out: Option<u16>, big_gap: Option<i32>
             _ if k == n - 1 => Some(names[3]),
             _ => None,
         };
-        let stmt = match rng.below(4) {
+        let stmt = match if k == 0 { 0 } else { rng.below(4) } {
+            // (the first statement is an ADD with a value of its own: one `step` from the origin sets the condition codes)
+            0 if k == 0 => Stmt::AddI(rng.below(7) as u8, rng.below(7) as u8, *rng.pick(&[1, -1, 5, -7, 15, -16])),
             0 => Stmt::AddI(rng.below(8) as u8, rng.below(8) as u8, rng.range(-16, 15) as i32),
             1 => Stmt::Fill(rng.below(0x10000) as i32),
             2 => Stmt::Not(rng.below(8) as u8, rng.below(8) as u8),
@@ -113,6 +115,8 @@ fn boundary_addr(rng: &mut Rng, orig: u16) -> (u16, Option<&'static str>) {
         6 => (0xFE00, Some("addr:xFE00")),
         7 => (0xFFFF, Some("addr:xFFFF")),
         8 => (orig.wrapping_add(1), None),
+        // the addresses other LC-3 machines map their device and status registers to: plain memory here
+        9 => (*rng.pick(&[0xFFFCu16, 0xFFFE, 0xFE00, 0xFE02, 0xFE04, 0xFE06, 0xFFFC, 0xFFFD]), Some("addr:device_register_of_other_machines")),
         _ => (rng.u16(), None),
     }
 }
@@ -170,6 +174,11 @@ fn one_case(seed: u64, i: u64, n_sessions: u64, sweep_all: bool) -> CaseOut {
         cmds.push(Cmd::StepInto(2));
         classes.push("pc_outside_user_space".into());
     } else {
+        if orig != 0xFDF0 && orig < 0xFE00 && i % 3 == 1 {
+            // one instruction executed first: the condition codes are set when the commands below are given
+            cmds.push(Cmd::Step);
+            classes.push("condition_codes_set_before_the_commands".into());
+        }
         cmds.push(Cmd::Goto(orig + rng.below(img.words.len() as u64) as u16));
     }
     for k in 0..CMDS_PER_SESSION {
